@@ -1,0 +1,77 @@
+//go:build verif
+
+// Contracts for the deductive verifier in /verif (govc). Comment-only: this file adds no code.
+package parse
+
+// ---- C05: canonical file index
+
+//@ spec stripAt(s string) string = ite(indexOf(s, "@") >= 0, substr(s, 0, indexOf(s, "@")), s)
+//@ spec canonIndex(f string) string = stripAt(replaceAll(f, "\\", "/"))
+
+//@ func cleanImportFilename
+//@   ensures [slashes] result == replaceAll(filename, "\\", "/")
+
+// (deterministic: calls are a function of the argument — which the postcondition itself establishes)
+//@ func fileNameToIndex
+//@   deterministic
+//@   ensures [canonical] result == canonIndex(filename)
+
+// Two spellings that differ only in slash direction, or only in an @version suffix, index the same file.
+//@ lemma indexIgnoresVersion(a string, v string) bool = !contains(a, "@") && !contains(a, "\\") ==> canonIndex(a + "@" + v) == canonIndex(a)
+//@ lemma indexOfPlainName(a string) bool = !contains(a, "@") && !contains(a, "\\") ==> canonIndex(a) == a
+
+// ---- C05 / C06: retrieval of one file
+
+// The retrieved map is touched only between Lock and Unlock; a file is read only by the call that inserted its
+// (previously absent) index into the map in that same critical section; children are retrieved one level deeper.
+//@ func (*Parser).collectSpecs
+//@   requires retrieved != nil && retrieved.l != nil && p != nil
+//@   ghostset @call:sync.(*Mutex).Lock locked
+//@   ghostclear @call:sync.(*Mutex).Unlock locked
+//@   ghostset @mapupdate:map[parse.retrievedListIndex]*parse.fileInfo claimed
+//@   ghostset @call:iface:github.com/anz-bank/golden-retriever/reader.Reader.ReadHashBranch read
+//@   assert @lookup:map[parse.retrievedListIndex]*parse.fileInfo [map-read-under-lock] ghost("locked")
+//@   assert @mapupdate:map[parse.retrievedListIndex]*parse.fileInfo [map-write-under-lock] ghost("locked")
+//@   assert @call:iface:github.com/anz-bank/golden-retriever/reader.Reader.ReadHashBranch [claim-before-read] ghost("claimed") && !ghost("locked")
+//@   assert @call:iface:github.com/anz-bank/golden-retriever/reader.Reader.ReadHashBranch [reads-the-claimed-file] arg2 == source.filename
+//@   ensures [depth-cut] maxImportDepth > 0 && currentImportDepth >= maxImportDepth ==> result == nil && !ghost("read") && !ghost("claimed")
+//@   ensures [unlocked-at-exit] !ghost("locked")
+//@   errprop ReadHashBranch parse.parseImports Group).Wait
+
+//@ func (*Parser).collectSpecs$1
+//@   assert @call:parse.(*Parser).collectSpecs [one-level-deeper] arg5 == maxImportDepth && arg6 == currentImportDepth + 1 && arg4 == retrieved && arg2.filename == c.filename
+//@   errprop (*Parser).collectSpecs
+
+//@ func (*Parser).Parse
+//@   errprop-nil (*Parser).collectSpecs
+
+//@ func parseImports
+//@   errprop-nil parse.parseString
+
+//@ func importForeign
+//@   requires input != nil
+//@   errprop-nil detectFileType FromPBByteContents importer.Factory Importer.Configure Importer.Load
+
+// ---- C05: flattening the retrieved import graph (pre-order, each file once)
+
+//@ spec listed(specs slice, n int, idx string) bool = exists(j, 0, n, fileNameToIndex(specs[j].src.filename) == idx)
+
+// The file is new and retrieved, it has at least one import, and that first import is itself new, retrieved and
+// not the file itself: then (pre-order, imports in textual order) it is the very next entry after the file.
+//@ spec firstImportIsNew(specs ref, filename string, retrieved ref) bool = old(!listed(*specs, len(*specs), fileNameToIndex(filename)) && in(fileNameToIndex(filename), retrieved.l) && len(retrieved.l[fileNameToIndex(filename)].imports) > 0 && fileNameToIndex(retrieved.l[fileNameToIndex(filename)].imports[0].filename) != fileNameToIndex(retrieved.l[fileNameToIndex(filename)].src.src.filename) && !listed(*specs, len(*specs), fileNameToIndex(retrieved.l[fileNameToIndex(filename)].imports[0].filename)) && in(fileNameToIndex(retrieved.l[fileNameToIndex(filename)].imports[0].filename), retrieved.l))
+
+// A file whose index is already listed, or that was never retrieved (depth cut), adds nothing. Otherwise the file's
+// own source is appended first (pre-order), what was listed before stays in place, and nothing is ever removed.
+//@ func flattenSpecs
+//@   requires specs != nil && retrieved != nil
+//@   ensures [listed-once] old(listed(*specs, len(*specs), fileNameToIndex(filename))) ==> len(*specs) == old(len(*specs))
+//@   ensures [not-retrieved] !old(in(fileNameToIndex(filename), retrieved.l)) ==> len(*specs) == old(len(*specs))
+//@   ensures [grows] len(*specs) >= old(len(*specs))
+//@   ensures [self-first] !old(listed(*specs, len(*specs), fileNameToIndex(filename))) && old(in(fileNameToIndex(filename), retrieved.l)) ==> len(*specs) > old(len(*specs)) && (*specs)[old(len(*specs))].src.filename == old(retrieved.l[fileNameToIndex(filename)].src.src.filename)
+//@   ensures [prefix-kept] forall(i, 0, old(len(*specs)), (*specs)[i].src.filename == old((*specs)[i].src.filename))
+//@   ensures [first-import-second] firstImportIsNew(specs, filename, retrieved) ==> len(*specs) >= old(len(*specs)) + 2 && (*specs)[old(len(*specs))+1].src.filename == old(retrieved.l[fileNameToIndex(retrieved.l[fileNameToIndex(filename)].imports[0].filename)].src.src.filename)
+//@   loop 0 invariant [none-listed-before] forall(j, 0, rangeindex+1, fileNameToIndex((*specs)[j].src.filename) != fileNameToIndex(filename))
+//@   loop 1 invariant [grown] len(*specs) >= old(len(*specs)) + 1
+//@   loop 1 invariant [self-kept] (*specs)[old(len(*specs))].src.filename == old(retrieved.l[fileNameToIndex(filename)].src.src.filename)
+//@   loop 1 invariant [first-import-second] rangeindex >= 0 && firstImportIsNew(specs, filename, retrieved) ==> len(*specs) >= old(len(*specs)) + 2 && (*specs)[old(len(*specs))+1].src.filename == old(retrieved.l[fileNameToIndex(retrieved.l[fileNameToIndex(filename)].imports[0].filename)].src.src.filename)
+//@   loop 1 invariant [prefix-kept] forall(i, 0, old(len(*specs)), (*specs)[i].src.filename == old((*specs)[i].src.filename))
